@@ -126,4 +126,67 @@ pub(crate) mod verif_pe {
         kani::cover!(first_is_8 && l2 < l1, "the earlier cut-off is handled second");
         core::mem::forget(s);
     }
+
+    /// C17 (build with the container model's iteration order chosen by the solver,
+    /// `CFG_ggrs_verif_permute`): four peers; the two surviving remote peers (addresses 8 and 9) both
+    /// gossip that player 3 is disconnected, as of different frames m8 and m9, while this peer holds
+    /// its inputs up to L. Whatever order the endpoint map is iterated in, the adopted cut-off is the
+    /// minimum of the three and the resimulation starts right after it.
+    #[kani::proof]
+    #[kani::unwind(6)]
+    #[kani::stub(crate::network::protocol::millis_since_epoch, stub_millis)]
+    #[kani::stub(alloc::fmt::format, stub_format)]
+    fn pe_gossip_order_independent() {
+        let mut reg = PlayerRegistry::<CfgRL> { handles: HashMap::new(), remotes: HashMap::new(), spectators: HashMap::new() };
+        reg.handles.insert(0, PlayerType::Local);
+        reg.handles.insert(1, PlayerType::Remote(8));
+        reg.handles.insert(2, PlayerType::Remote(9));
+        reg.handles.insert(3, PlayerType::Remote(7));
+        let cur: Frame = 20;
+        let m8: Frame = kani::any();
+        let m9: Frame = kani::any();
+        let l: Frame = kani::any();
+        kani::assume(m8 >= 10 && m8 <= 22 && m9 >= 10 && m9 <= 22 && l >= 10 && l <= 22);
+        let ok = ConnectionStatus { disconnected: false, last_frame: cur + 5 };
+        let mut e8 = mk_ep::<CfgRL>(vec![1], 4, 1, 3, true);
+        set_peer_addr(&mut e8, 8);
+        let mut e9 = mk_ep::<CfgRL>(vec![2], 4, 1, 3, true);
+        let mut e7 = mk_ep::<CfgRL>(vec![3], 4, 1, 3, true);
+        set_peer_addr(&mut e7, 7);
+        let mut h = 0;
+        while h < 3 {
+            set_peer_status(&mut e8, h, ok);
+            set_peer_status(&mut e9, h, ok);
+            set_peer_status(&mut e7, h, ok);
+            h += 1;
+        }
+        set_peer_status(&mut e7, 3, ok);
+        set_peer_status(&mut e8, 3, ConnectionStatus { disconnected: true, last_frame: m8 });
+        set_peer_status(&mut e9, 3, ConnectionStatus { disconnected: true, last_frame: m9 });
+        reg.remotes.insert(8, e8);
+        reg.remotes.insert(9, e9);
+        reg.remotes.insert(7, e7);
+        let mut s = P2PSession::<CfgRL>::new(4, 3, Box::new(NullSocket), reg, false, DesyncDetection::Off, 0, 60);
+        s.state = SessionState::Running;
+        crate::sync_layer::verif_s::set_current_frame(&mut s.sync_layer, cur);
+        s.local_connect_status[0].last_frame = cur;
+        s.local_connect_status[1].last_frame = cur;
+        s.local_connect_status[2].last_frame = cur;
+        s.local_connect_status[3].last_frame = l;
+        s.update_player_disconnects();
+        let mut cut = l;
+        if m8 < cut {
+            cut = m8;
+        }
+        if m9 < cut {
+            cut = m9;
+        }
+        assert!(s.local_connect_status[3].disconnected);
+        if cur > cut + 1 {
+            assert!(s.disconnect_frame == cut + 1, "C17: the rollback target does not depend on the map's iteration order");
+        }
+        kani::cover!(m9 < m8 && m9 < l, "the second reporter names the earliest frame");
+        kani::cover!(m8 < m9 && m8 < l, "the first reporter names the earliest frame");
+        core::mem::forget(s);
+    }
 }
